@@ -375,6 +375,20 @@ def cases(seed, tier):
         big[1] = str(len(big[-1]))
         recs[pos] = big
         yield mk(mode, fnl, mode.startswith("flat"), recs)
+    # every exported reader (Read, ReadMulti, ReadFlat, ReadFlatGz) and parser on files above 32 KiB, 64 KiB and ~1 MiB
+    # (decompressed), several records where the entry point takes them
+    for total in (30000, 60000, 850000):
+        for mode in ("read", "readmulti", "readflat", "readflatgz", "multi", "flat"):
+            if total > 100000 and mode in ("multi", "flat") and tier == "quick":
+                continue
+            nrec = 1 if mode == "read" else 3
+            recs = []
+            for k in range(nrec):
+                rec = record(r, tier, small=True)
+                n = total // nrec + r.randint(0, 50)
+                rec[-1] = "".join(r.choices("acgt", k=n)); rec[1] = str(n)
+                recs.append(rec)
+            yield mk(mode, r.random() < 0.5, mode.startswith("flat") or mode.startswith("readflat"), recs)
     # large sequences
     for i in range(3 if tier == "quick" else 40):
         yield mk(r.choice(["parse", "multi", "flat"]) if i else "parse", r.random() < 0.5, False, [record(r, tier, big=True)])
